@@ -23,8 +23,10 @@ const c12Redirect = "https://app.example.com/cb"
 const c12Redirect2 = "https://other.example.com/cb"
 const c12Verifier = "verifier-0123456789-verifier-0123456789-verifier"
 
-func c12World() *vfWorld {
-	return vfNewWorld(vfOpts{CertBackends: []string{"password"}, WebUIBackends: []string{"password"},
+// c12World: deploy "" = RSA signer; "ecdsa" = a P-256 key in the primary slot
+// (tokens are ES256); "rsa+ed25519" = an Ed25519 CA next to the RSA signer.
+func c12World(deploy string) *vfWorld {
+	return vfNewWorld(vfOpts{CertBackends: []string{"password"}, WebUIBackends: []string{"password"}, ECDSAPrimary: deploy == "ecdsa", Ed25519CA: deploy == "rsa+ed25519",
 		OIDCClients: []OpenIDConnectClientConfig{
 			{ClientID: "A", ClientSecret: "secret-A+/=", AllowedRedirectDomains: []string{"example.com"}, AllowClientChosenAudiences: true},
 			{ClientID: "B", ClientSecret: "", AllowedRedirectDomains: []string{"example.com"}},
@@ -101,8 +103,9 @@ type c12Tok struct {
 }
 
 type c12Point struct {
-	Auth c12Auth `json:"auth"`
-	Tok  c12Tok  `json:"tok"`
+	Auth   c12Auth `json:"auth"`
+	Tok    c12Tok  `json:"tok"`
+	Deploy string  `json:"deploy,omitempty"`
 }
 
 var c12Secrets = map[string]string{"A": "secret-A+/=", "B": "", "C": "secret-C"}
@@ -115,8 +118,8 @@ type c12Ctx struct {
 	arts  map[string]string
 }
 
-func c12Setup() *c12Ctx {
-	w := c12World()
+func c12Setup(deploy string) *c12Ctx {
+	w := c12World(deploy)
 	x := &c12Ctx{w: w, codes: map[c12Auth]string{}, t0: vclock.Now(), arts: map[string]string{}}
 	r := w.Do(vfReq{Method: "GET", Path: idpOpenIDCJWKSPath}.Build())
 	vfMust(json.Unmarshal(r.Body, &x.jwks))
@@ -441,38 +444,49 @@ func init() {
 	vfRegister(&vfeng.Check{
 		ID:    "C12",
 		Level: "model_checking",
-		Rule:  "exhaustive product on the real authorization, token and userinfo handlers: authorization (client A with secret / B secret-less, user, challenge none/S256/no-method/plain/unknown/empty, nonce none/short/ok, audience none/allowed/foreign) x token request (presenter A/B/C/unknown/empty, secret right/wrong/absent/other client's/URL-escaped/whitespace-only/right+trailing blank/one character short/case-folded, verifier right/wrong/absent/challenge itself, redirect same/other-allowed/foreign/empty, code fresh/299s/300s/301s/bit-flipped/foreign key/session cookie/access token/ID token, credentials in header/form/both disagreeing, POST/GET); oracle: released => mayRelease(model); canonical flows must succeed; released ID token verified against the keys served by the JWKS route; userinfo returns the same user; an ID token, an authorization code or a session cookie presented to userinfo (header and form) yields no user data whatever the status",
+		Rule:  "for three signer deployments (RSA; a P-256 key in the primary slot; RSA with an Ed25519 CA) - the full product on RSA, the canonical requests and a stride on the others - exhaustive product on the real authorization, token and userinfo handlers: authorization (client A with secret / B secret-less, user, challenge none/S256/no-method/plain/unknown/empty, nonce none/short/ok, audience none/allowed/foreign) x token request (presenter A/B/C/unknown/empty, secret right/wrong/absent/other client's/URL-escaped/whitespace-only/right+trailing blank/one character short/case-folded, verifier right/wrong/absent/challenge itself, redirect same/other-allowed/foreign/empty, code fresh/299s/300s/301s/bit-flipped/foreign key/session cookie/access token/ID token, credentials in header/form/both disagreeing, POST/GET); oracle: released => mayRelease(model); canonical flows must succeed; released ID token verified against the keys served by the JWKS route; userinfo returns the same user; an ID token, an authorization code or a session cookie presented to userinfo (header and form) yields no user data whatever the status",
 		Assumptions: []string{"a code presented exactly 300 s after issue is a boundary (not judged)", "a URL-escaped secret in the form (where no decoding is specified) is not judged"},
 		Shards: func(tier string) int { return 16 },
 		Run: func(c *vfeng.Ctx) {
-			x := c12Setup()
-			defer x.w.Close()
 			auths := c12Auths()
 			toks := c12Toks(c.Thorough())
 			i := 0
-			for _, a := range auths {
-				// authorizations that cannot yield a code are evaluated once
-				refusedByDesign := a.Nonce == "short" || a.Audience == "foreign" || a.Challenge == "unknown" || a.Challenge == "plain"
-				for ti, t := range toks {
-					if refusedByDesign && ti > 0 {
-						break
+			for _, deploy := range []string{"", "ecdsa", "rsa+ed25519"} {
+				x := c12Setup(deploy)
+				for _, a := range auths {
+					// authorizations that cannot yield a code are evaluated once
+					refusedByDesign := a.Nonce == "short" || a.Audience == "foreign" || a.Challenge == "unknown" || a.Challenge == "plain"
+					if deploy == "ecdsa" && a.Challenge != "none" {
+						continue // the PKCE data of a code are sealed with an RSA key
 					}
-					if !c.Thorough() && (a.User == "bob" || a.Nonce == "none" || a.Audience == "allowed") && ti%37 != 0 {
-						continue // quick tier: full token product for the principal authorizations, a stride for the variants
-					}
-					i++
-					if !c.Mine(i) {
-						continue
-					}
-					p := c12Point{a, t}
-					v, key, what, class := x.run(p)
-					c.Eval(1)
-					if v {
-						c.Violate(key, what, p)
-					} else {
-						c.Class(class, p)
+					for ti, t := range toks {
+						if refusedByDesign && ti > 0 {
+							break
+						}
+						if !c.Thorough() && (a.User == "bob" || a.Nonce == "none" || a.Audience == "allowed") && ti%37 != 0 {
+							continue // quick tier: full token product for the principal authorizations, a stride for the variants
+						}
+						if deploy != "" && !c.Thorough() && ti%11 != 0 && !(t.Code == "fresh" && t.Secret == "right" && t.Verifier == "absent") {
+							continue // other signer kinds: the canonical requests and a stride of the rest
+						}
+						i++
+						if !c.Mine(i) {
+							continue
+						}
+						p := c12Point{a, t, deploy}
+						v, key, what, class := x.run(p)
+						c.Eval(1)
+						if v {
+							c.Violate(key, what, p)
+						} else {
+							if deploy != "" {
+								class = deploy + "|" + class
+							}
+							c.Class(class, p)
+						}
 					}
 				}
+				x.w.Close()
 			}
 		},
 		Replay: func(c *vfeng.Ctx, raw json.RawMessage) (bool, string) {
@@ -480,7 +494,7 @@ func init() {
 			if err := json.Unmarshal(raw, &p); err != nil {
 				return false, err.Error()
 			}
-			x := c12Setup()
+			x := c12Setup(p.Deploy)
 			defer x.w.Close()
 			v, key, what, class := x.run(p)
 			return v, key + " :: " + what + class
